@@ -59,11 +59,15 @@ func (sc *serverConn) serve() {
 	sc.serveG.Check()
 	defer sc.notePanic()
 	defer func() {
-		if sc.cconn != nil {
-			sc.cconn.Close()
-		}
+		// Note: close the backend conn first. Close() on a tls client conn
+		// sends close_notify and waits for a Write in progress; the relay
+		// goroutine may be blocked in such a Write for as long as the
+		// client does not read.
 		if sc.bconn != nil {
 			sc.bconn.Close()
+		}
+		if sc.cconn != nil {
+			sc.cconn.Close()
 		}
 	}()
 
